@@ -38,14 +38,55 @@ type target struct {
 	Vars  []string // package-level integer array/slice tables to export as list Z
 }
 
-// The functions and tables the models depend on. Extending the tie = adding a name here and a
-// bridge lemma in Gen/Bridge.v.
-var targets = []target{
-	{Pkg: "secs2", Funcs: []string{"headerLen", "clampInt64", "clampUint64"}, Vars: []string{"slabChunkSizes"}},
-	{Pkg: "hsms", Funcs: []string{"transition", "IsValidSType"}},
-	{Pkg: "hsmsss", Funcs: []string{"linktestFailureStep", "linktestDisconnectRecheck"}},
-	{Pkg: "secs1"},
-	{Pkg: "sml"},
+// The functions and tables the models depend on are registered from targets_*.go files (one per
+// property family, so that independent work does not collide). Extending the tie = registering a
+// name and proving a bridge lemma in coq/theories/Gen/Bridge<Family>.v.
+var registry = map[string]*target{}
+var pkgOrder = []string{"secs2", "hsms", "hsmsss", "secs1", "sml"}
+
+func register(pkg string, funcs []string, vars []string) {
+	t, ok := registry[pkg]
+	if !ok {
+		t = &target{Pkg: pkg}
+		registry[pkg] = t
+		known := false
+		for _, p := range pkgOrder {
+			known = known || p == pkg
+		}
+		if !known {
+			pkgOrder = append(pkgOrder, pkg)
+		}
+	}
+	for _, f := range funcs {
+		dup := false
+		for _, g := range t.Funcs {
+			dup = dup || g == f
+		}
+		if !dup {
+			t.Funcs = append(t.Funcs, f)
+		}
+	}
+	for _, v := range vars {
+		dup := false
+		for _, g := range t.Vars {
+			dup = dup || g == v
+		}
+		if !dup {
+			t.Vars = append(t.Vars, v)
+		}
+	}
+}
+
+func allTargets() []target {
+	out := []target{}
+	for _, p := range pkgOrder {
+		if t, ok := registry[p]; ok {
+			out = append(out, *t)
+		} else {
+			out = append(out, target{Pkg: p})
+		}
+	}
+	return out
 }
 
 type tr struct {
@@ -550,7 +591,7 @@ func main() {
 	buf.WriteString("(* GENERATED by /verif/translator from the current /repo sources. DO NOT EDIT. *)\n")
 	buf.WriteString("From Coq Require Import ZArith Bool List.\nFrom GoSecs Require Import Base.GoInt.\nImport ListNotations.\nOpen Scope Z_scope.\n\n")
 
-	for _, tg := range targets {
+	for _, tg := range allTargets() {
 		pkg, err := ci.check(tg.Pkg)
 		if err != nil || pkg == nil {
 			fmt.Fprintf(os.Stderr, "translator: cannot load package %s: %v\n", tg.Pkg, err)
